@@ -1,5 +1,5 @@
 """C20 xtime: SleepContext honours d and the deadline; JitterTicker keeps its spacing (spec/xtime)."""
-from bubblecommon import bubble_tv
+from bubblecommon import bubble_tv, rt_tv
 from common import mc, mc_must_fail
 
 
@@ -18,5 +18,8 @@ def run(ctx):
     #    phase, channel watched for 10*d after Stop; judged by Trace_XTime
     bubble_tv(ctx, "TestXTime", "xtime", "Trace_XTime", "tv.cfg", "xtime", {"n": ctx.pick(80, 800)}, silent=False)
     bubble_tv(ctx, "TestXTime", "xtime", "Trace_XTime", "tv.cfg", "xtime perturbed", {"n": ctx.pick(80, 800)}, silent=False, perturb=True)
+    # real clock, pre-1.23 timer semantics (what the library's own go.mod selects): a sleep cancelled right when its timer
+    # fires, followed at once by another sleep - nil only after at least d (lower bounds are sound on a real clock)
+    rt_tv(ctx, "sleep", "xtime", "Trace_XTime", "tv.cfg", "sleep asynctimerchan=1", ctx.pick(400, 4000), confirm=False)
     ctx.assumptions += ["a deadline that has already passed counts as 'closer than d' (DeadlineTooSoonError or the context's error are both accepted)",
-                        "bubbles use Go >= 1.23 timer semantics"]
+                        "bubbles use Go >= 1.23 timer semantics; the pre-1.23 semantics are covered by the real-clock lane for the lower bound only"]
